@@ -547,6 +547,10 @@ def data_points(spec, d, tier, s_total):
                 pts.append({axes[i][0]: l for i, l in zip(combo, letters)})
     if tier != "thorough" and d >= 1 and s_total == 0:
         pts.append({"rows": BIG_ROWS})  # the large file once per default schema in the quick tier too
+    if len(T) == 1 and T[0] != "s" and s_total <= 2 and not (tier == "thorough" and d >= 1 and s_total <= 1):
+        # a long table WITHOUT a text column (every delimiter / missing-marker letter): seed C16h,
+        # a bulk write path for >= 1000 rows that by-passes the csv quoting rules
+        pts.append({"rows": BIG_ROWS})
     if tier == "thorough":
         # 10^4 rows: a packed cycle of all letters; combined with <= 1 further deviation
         if d >= 1 and s_total <= 1:
